@@ -471,23 +471,29 @@ func ruleLimit(r *Run) {
 	// atoms: loads of i.limit and i.entries in comparisons
 	var limitLoads, entriesLoads []ssa.Value
 	var nextCall *ssa.Call
-	allInstrs(fn, func(in ssa.Instruction) {
-		switch x := in.(type) {
-		case *ssa.UnOp:
-			if f, base, ok := loadOfField(x); ok && base == ssa.Value(fn.Params[0]) {
-				if f == "limit" {
-					limitLoads = append(limitLoads, x)
-				}
-				if f == "entries" {
-					entriesLoads = append(entriesLoads, x)
-				}
-			}
-		case *ssa.Call:
-			if invokeIs(x, "Next") {
-				nextCall = x
-			}
+	lgrp := funcGroup(fn)
+	for _, gf := range lgrp {
+		if gf.Parent() != nil {
+			continue
 		}
-	})
+		allInstrs(gf, func(in ssa.Instruction) {
+			switch x := in.(type) {
+			case *ssa.UnOp:
+				if f, base, ok := loadOfField(x); ok && (base == ssa.Value(fn.Params[0]) || (gf != fn && originValueIn(base, lgrp) == ssa.Value(fn.Params[0]))) {
+					if f == "limit" {
+						limitLoads = append(limitLoads, x)
+					}
+					if f == "entries" {
+						entriesLoads = append(entriesLoads, x)
+					}
+				}
+			case *ssa.Call:
+				if gf == fn && invokeIs(x, "Next") {
+					nextCall = x
+				}
+			}
+		})
+	}
 	if len(limitLoads) == 0 || len(entriesLoads) == 0 || nextCall == nil {
 		o.Fail(r.pos(fn.Pos()), "limit/entries tests or the source Next call not found (limit loads=%d entries loads=%d)", len(limitLoads), len(entriesLoads))
 		return
